@@ -238,12 +238,26 @@ func runC05(c *Ctx) {
 			}
 		})
 		bad := ""
-		if len(rd) != 1 {
-			bad = fmt.Sprintf("%d underlying Read calls (expected one)", len(rd))
-		} else if InLoop(rd[0].Block()) {
-			bad = "the underlying Read is inside a loop: the reader waits for further output before returning what it has"
+		if len(rd) == 0 {
+			bad = "no underlying Read call"
 		}
-		c.Check("C05.W", rn+":single-read", p, fn.Pos(), bad == "", "one underlying Read per call, outside any loop", rn+": "+bad)
+		for _, a := range rd {
+			if InLoop(a.Block()) {
+				bad = "the underlying Read is inside a loop: the reader waits for further output before returning what it has"
+			}
+			// alternative reads on different paths (a fast path) are one read per call; a second
+			// read reachable after a first one waits for further output
+			for _, b := range rd {
+				if a == b {
+					continue
+				}
+				tgt := b
+				if h, _ := (&Walk{Target: func(i ssa.Instruction) bool { return i == tgt }, Local: true}).FromInstr(a); h != nil {
+					bad = "a second underlying Read at " + p.Pos(b.Pos()) + " follows the one at " + p.Pos(a.Pos()) + ": the reader waits for further output before returning what it has"
+				}
+			}
+		}
+		c.Check("C05.W", rn+":single-read", p, fn.Pos(), bad == "", fmt.Sprintf("at most one underlying Read per call (%d site(s), none after another), outside any loop", len(rd)), rn+": "+bad)
 	}
 	// the handler chain writes straight into the response forwarder (no wrapper in between)
 	if f := p.Func("agent.forwardRequest"); f != nil {
